@@ -234,6 +234,11 @@ func c05Profiles(tier Tier) []*explore.Profile {
 			acts = append(acts, supplyMenu(w, o)...)
 			acts = append(acts, roleMenu(w, o, [][]byte{uni.F, uni.S})...)
 			acts = append(acts, freezeMenu(w, menuOpts{thorough: true, shards: 2, nftFreeze: true}, true)...)
+			// a freeze marker on the key of the nonce the creator issues next (the account holds
+			// nothing there): the next creation must not write over it
+			if next := w.Ghost.Highest[tS] + 1; next < 250 {
+				acts = append(acts, uni.SysCall(uni.A0, vmcommon.BuiltInFunctionESDTFreeze, []byte(tS+spec.NonceSuffix(next))))
+			}
 			acts = append(acts, accountMenu(w, o)...)
 			acts = append(acts, impostorMenu(w, o)...)
 			acts = append(acts, deliveries(w)...)
